@@ -10,6 +10,8 @@
 
 #include <boost/gil/extension/io/bmp/tags.hpp>
 
+#include <limits>
+
 namespace boost { namespace gil {
 
 #if BOOST_WORKAROUND(BOOST_MSVC, >= 1400)
@@ -106,6 +108,11 @@ public:
 
             if (_info._height < 0)
             {
+                // (the most negative value has no positive counterpart)
+                io_error_if( _info._height == (std::numeric_limits< bmp_image_height::type >::min)()
+                           , "Invalid dimension for bmp file"
+                           );
+
                 _info._height = -_info._height;
                 _info._top_down = true;
             }
@@ -172,6 +179,10 @@ public:
         {
             io_error( "Invalid BMP info header." );
         }
+
+        io_error_if( _info._width < 1 || _info._height < 1
+                   , "Invalid dimension for bmp file"
+                   );
 
         _info._valid = true;
     }
